@@ -26,7 +26,7 @@ type mplexScn struct {
 	ID      int    `json:"id"`
 	Shape   string `json:"shape"` // small | sizes | literal | delta | listing | error
 	Framing struct {
-		Kind    string `json:"kind"` // none | fixed | pattern | runs | errat
+		Kind    string `json:"kind"` // none | fixed | coalesce | pattern | runs | errat
 		Size    int    `json:"size"` // fixed: data frame size
 		Pattern []struct {
 			Tag int `json:"tag"`
@@ -75,6 +75,19 @@ type reframer struct {
 	frames   int
 	injected bool
 	stopped  bool
+	pend     []byte // coalesce: logical bytes not yet framed
+	gen      int    // coalesce: generation of the pending flush timer
+}
+
+// flushPend (coalesce) sends what is pending as one short frame; call with r.mu held.
+func (r *reframer) flushPend() error {
+	if len(r.pend) == 0 {
+		return nil
+	}
+	err := r.frame(wirekit.TagData, r.pend)
+	r.off += len(r.pend)
+	r.pend = nil
+	return err
 }
 
 func (r *reframer) frame(tag int, p []byte) error {
@@ -85,6 +98,33 @@ func (r *reframer) frame(tag int, p []byte) error {
 // feed forwards logical data bytes to the client, cut as the scenario says.
 func (r *reframer) feed(p []byte) error {
 	f := &r.scn.Framing
+	if f.Kind == "coalesce" {
+		// MERGE the server's frames: data frames of exactly f.Size bytes whatever the server's write sizes were;
+		// a shorter frame only when the server has been silent for a moment (it may be waiting for the client)
+		r.mu.Lock()
+		defer r.mu.Unlock()
+		r.pend = append(r.pend, p...)
+		size := min(max(f.Size, 1), wirekit.MaxFrame)
+		for len(r.pend) >= size {
+			if err := r.frame(wirekit.TagData, r.pend[:size]); err != nil {
+				return err
+			}
+			r.pend = append([]byte(nil), r.pend[size:]...)
+			r.off += size
+		}
+		r.gen++
+		if len(r.pend) > 0 {
+			g := r.gen
+			time.AfterFunc(4*time.Millisecond, func() {
+				r.mu.Lock()
+				defer r.mu.Unlock()
+				if r.gen == g {
+					r.flushPend()
+				}
+			})
+		}
+		return nil
+	}
 	for len(p) > 0 && !r.stopped {
 		switch f.Kind {
 		case "fixed":
@@ -288,6 +328,12 @@ func runThroughProxy(base string, s *mplexScn, total int) *sessionResult {
 	go func() {
 		defer close(pdone)
 		defer cB.Out.CloseWrite()
+		defer func() { // (coalesce) what is still pending goes out before the stream is closed
+			rf.mu.Lock()
+			rf.gen++
+			rf.flushPend()
+			rf.mu.Unlock()
+		}()
 		var hs [8]byte // protocol version + seed are not framed
 		if _, err := io.ReadFull(sA, hs[:]); err != nil {
 			return
@@ -318,8 +364,12 @@ func runThroughProxy(base string, s *mplexScn, total int) *sessionResult {
 				return
 			}
 			if tag != wirekit.TagData {
-				// the server's own info/error frames pass through unchanged
+				// the server's own info/error frames pass through unchanged (after what is pending)
+				rf.mu.Lock()
+				rf.gen++
+				rf.flushPend()
 				rf.frame(tag, payload)
+				rf.mu.Unlock()
 				continue
 			}
 			res.stream += n
